@@ -103,7 +103,7 @@ func c07Struct(r *rand.Rand, depth, nf int) reflect.Type {
 			switch t.Kind() {
 			case reflect.Int8, reflect.Int16, reflect.Int32, reflect.Int64, reflect.Int, reflect.Uint8, reflect.Uint16,
 				reflect.Uint32, reflect.Uint64, reflect.Uint, reflect.Bool:
-				if r.Intn(8) == 0 {
+				if r.Intn(5) == 0 {
 					f.Tag = reflect.StructTag(fmt.Sprintf(`json:"F%02d,string"`, i))
 				}
 			}
@@ -570,6 +570,10 @@ func c07Value(r *rand.Rand, t reflect.Type, path string, addr map[string]bool, b
 			}
 			if quoted {
 				addr[fpath] = true
+				if r.Intn(5) == 0 {
+					b.WriteString("null") // leaves the field as it is: nothing is stored, whatever the width of the field
+					return
+				}
 				b.WriteString(`"` + c07Scalar(r, ft, r.Intn(100) < badRate) + `"`)
 				return
 			}
